@@ -328,7 +328,7 @@ EmitStop ==
                           IN  [s |-> w.sx, u |-> w.u, conv |-> Conv(w, par)]]])>>)
 
 -----------------------------------------------------------------------------
-(* Machine 3 (spec growth, reported beside C19 and never as a violation):         *)
+(* Machine 3 (C19: "covariance and covariance matrix"; replayed call by call):    *)
 (* RunningCovariance / RunningCovarianceMatrix with the code's OWN variables -     *)
 (* count, xmean, ymean, C - as reduced rationals <<num, den>> (den > 0), and the   *)
 (* update written line by line as in the code:                                     *)
